@@ -572,6 +572,16 @@ fn run_probes(ctx: &mut Context, job: &Value, out: &mut Value) {
     if let Some(a) = job["probes"].as_array() {
         qs.extend(a.iter().filter_map(|x| x.as_str().map(|s| s.to_string())));
     }
+    // names that must NOT answer after the load: their definition failed or was never given
+    if let Some(a) = job["undefined"].as_array() {
+        let phantom: Vec<String> = a
+            .iter()
+            .filter_map(|x| x.as_str())
+            .filter(|q| rink_core::eval(ctx, q).is_ok())
+            .map(|q| q.to_string())
+            .collect();
+        out["phantom"] = json!(phantom);
+    }
     if qs.is_empty() {
         return;
     }
